@@ -241,6 +241,16 @@ let do_tb toks now =
          | Some (OSynced u) -> nonbulk := (int_of_n u, int_of_string sid, t) :: !nonbulk;
            Printf.sprintf "synced:u%d" (int_of_n u)
          | o -> show o None)
+      | ["J"; sid; m; sv; cv; rm] ->
+        let t = mk_tuple m sv cv and rt = mk_tuple rm sv cv in
+        let r1 = match do_step (HASYNC (n_of_int (int_of_string sid), t, [])) with
+          | Some (OSynced u) -> nonbulk := (int_of_n u, int_of_string sid, t) :: !nonbulk; Printf.sprintf "u%d" (int_of_n u)
+          | _ -> "none" in
+        let ck = List.map int_of_n (generate h (n_of_int now) rt) in
+        let r2 = match do_step (PADR (rt, ns_of_ints (tag 0x0104 ck))) with
+          | Some (OPads (s2, u)) -> nonbulk := (int_of_n u, int_of_n s2, rt) :: !nonbulk; Printf.sprintf "%d:u%d" (int_of_n s2) (int_of_n u)
+          | _ -> "none" in
+        if !dead then "INADMISSIBLE" else "join:" ^ r1 ^ ":" ^ r2
       | ["P"; n; sv] ->
         let n = int_of_string n in
         let uids = ref [] in
